@@ -4,7 +4,7 @@
 // bound: one store with three documents, two authors, keys over {"", a, ab, b, [61 ff]} (12 rows per document); for every document as
 // the replica and every pair (x, y) of ids out of its rows (plus the default id with itself): get_range, get_range_len, get_fingerprint and get_first
 // compared with the ordered-map definition (x<y: [x,y); x>y: ids < y followed by ids >= x; x==y: everything), other documents' rows
-// must never appear.
+// must never appear. A fourth, empty document whose id sorts below another document's: get_first is the default id, the full range is empty.
 #[cfg(test)]
 mod verif_rp_c08_range {
     use super::*;
@@ -39,6 +39,19 @@ mod verif_rp_c08_range {
             } }
             drop(r);
             store.close_replica(ns.id());
+        }
+        {
+            // an empty document that is not the last one in table order
+            let top = docs.iter().map(|d| d.id()).max().unwrap();
+            let empty = loop { let s = NamespaceSecret::new(&mut rng); if s.id() < top { break s; } };
+            let r = store.new_replica(empty.clone()).unwrap();
+            drop(r);
+            store.close_replica(empty.id());
+            let mut inst = StoreInstance::new(empty.id(), &mut store);
+            assert_eq!(inst.get_first().unwrap(), RecordIdentifier::default(), "WITNESS get_first of an empty document {} is not the default id", empty.id().fmt_short());
+            let n = inst.get_range(Range::new(RecordIdentifier::default(), RecordIdentifier::default())).unwrap().count();
+            assert_eq!(n, 0, "WITNESS full range of the empty document {} has {} rows", empty.id().fmt_short(), n);
+            assert_eq!(inst.get_fingerprint(&Range::new(RecordIdentifier::default(), RecordIdentifier::default())).unwrap(), Fingerprint::empty(), "WITNESS fingerprint of an empty document is not the empty fingerprint");
         }
         for ns in &docs {
             let mut inst = StoreInstance::new(ns.id(), &mut store);
